@@ -632,7 +632,9 @@ func init() {
 		out := fs.String("out", "trace.ndjson", "output NDJSON")
 		scen := fs.String("scenarios", "", "write the scenarios (JSON lines) here")
 		par := fs.Int("par", 8, "traces run in parallel")
+		only := fs.String("op", "", "only scenarios of this operator")
 		_ = fs.Parse(args)
+		kernel.OnlyTimedOp = *only
 		kernel.InstallHooks()
 		r := rand.New(rand.NewSource(*seed))
 		scs := make([]kernel.TimedScenario, *n)
